@@ -1,12 +1,219 @@
 import IpaVerif.Model.Util
-/-! Line-protocol handlers for property C13 (model side). Import-free. -/
+import IpaVerif.Model.Channel
+/-! Line-protocol handlers for property C13 (model side). Import-free.
+
+* `c13.config <active> <read_size> <record_size> <u|i|s<n>>` → `<total_capacity> <record_size> <read_size>` | `panic:<tag>`
+* `c13.coll <op,…>` with `a<q>.<p>.<g>.<stream>` (add_stream), `w<q>.<p>.<g>.<waker>` (add_waker), `x` (clear)
+  → per op `ok|<woken>` / `none` / `some<stream>` / `panic`
+* `c13.chan <active> <read_size> <size> <i|s<n>> <op,…>` with `s<g>.<i>` (send record i on gate g, payload
+  `payload g i`), `r<g>.<i>` (receive record i on gate g) → per op `ok` / `err:TooManyRecords` / `<hex>` / `eos`.
+-/
 namespace IpaVerif.Driver.C13
-open IpaVerif.Util
+open IpaVerif.Util IpaVerif.Channel
 
-/-- `some response` if the request belongs to this property, else `none`. -/
-def handle (_toks : List String) : Option String := none
+/-! ### config -/
 
-/-- Property oracle on (request, implementation response): `some "holds"`, `some "fails <why>"`, or `none`. -/
-def oracle (_toks : List String) (_impl : String) : Option String := none
+def parseTotal (s : String) : Option Total :=
+  match s.toList with
+  | ['u'] => some .unspecified
+  | ['i'] => some .indeterminate
+  | 's' :: rest => (String.ofList rest).toNat?.map .specified
+  | _ => none
+
+def isIndeterminate : Total → Bool
+  | .indeterminate => true
+  | _ => false
+
+def config (active readCfg rec : Nat) (t : Total) : String :=
+  match newWith active readCfg rec (isIndeterminate t) with
+  | .ok c => s!"{c.totalCapacity} {c.recordSize} {c.readSize}"
+  | .error e => s!"panic:{e}"
+
+def isPow2 (n : Nat) : Bool := n != 0 && (n &&& (n - 1)) == 0
+
+/-- Spec side of `new_with`: alignment (ipa#1300) and "largest power-of-two multiple of the record
+size not above the configured read size", stated without the code's formula. -/
+def configOracle (active readCfg rec : Nat) (t : Total) (impl : String) : Option String :=
+  if rec = 0 then (if impl.startsWith "panic" then none else some "zero record size accepted") else
+  match (impl.splitOn " ").mapM String.toNat? with
+  | some [cap, r, rd] =>
+    if cap ≠ active * rec then some "total capacity is not active * record size"
+    else if r ≠ rec then some "record size changed"
+    else if rd = 0 ∨ cap % rd ≠ 0 then some "read size does not divide the total capacity (ipa#1300)"
+    else if rd % rec ≠ 0 then some "record size does not divide the read size"
+    else if !isPow2 (rd / rec) then some "read size is not a power-of-two multiple of the record size"
+    else if isIndeterminate t then (if rd = rec then none else some "indeterminate total must flush every record")
+    else if rd > rec ∧ rd > readCfg then some "read size exceeds the configured read size"
+    else if rd < cap ∧ 2 * rd ≤ readCfg then some "read size is not the largest admissible one"
+    else none
+  | _ => some s!"the constructor must not panic on valid input, got {impl}"
+
+/-! ### StreamCollection -/
+
+def parseKeyed (s : String) : Option (Key × Nat) :=
+  match (s.splitOn ".").mapM String.toNat? with
+  | some [q, p, g, x] => some ((q, p, g), x)
+  | _ => none
+
+def parseCollOp (s : String) : Option CollOp :=
+  match s.toList with
+  | ['x'] => some .clear
+  | 'a' :: rest => (parseKeyed (String.ofList rest)).map (fun (k, x) => .addStream k x)
+  | 'w' :: rest => (parseKeyed (String.ofList rest)).map (fun (k, x) => .addWaker k x)
+  | _ => none
+
+def parseCollOps (s : String) : Option (List CollOp) :=
+  if s = "-" then some [] else (s.splitOn ",").mapM parseCollOp
+
+def showCollOut : CollOut → String
+  | .unit none => "ok|-"
+  | .unit (some w) => s!"ok|{w}"
+  | .got none => "none"
+  | .got (some s) => s!"some{s}"
+  | .panic => "panic"
+
+def showOuts (l : List String) : String := if l.isEmpty then "-" else String.intercalate ";" l
+
+/-- Spec side: the outcome of an operation on key `k` is a function of the earlier operations on the
+*same* key since the last `clear` (a one-stream rendezvous), nothing else. -/
+def collSpecState (k : Key) (hist : List CollOp) : Option StreamState :=
+  -- hist is oldest-first
+  hist.foldl (fun st op =>
+    match op with
+    | .clear => none
+    | .addStream k' s => if k' == k then
+        (match st with
+         | none | some (.waiting _) => some (.ready s)
+         | other => other) else st
+    | .addWaker k' w => if k' == k then
+        (match st with
+         | none | some (.waiting _) => some (.waiting w)
+         | some (.ready _) => some .completed
+         | other => other) else st) none
+
+def collSpecOut (hist : List CollOp) (op : CollOp) : String :=
+  match op with
+  | .clear => "ok|-"
+  | .addStream k _ =>
+    match collSpecState k hist with
+    | none => "ok|-"
+    | some (.waiting w) => s!"ok|{w}"
+    | _ => "panic"
+  | .addWaker k _ =>
+    match collSpecState k hist with
+    | some (.ready s) => s!"some{s}"
+    | some .completed => "panic"
+    | _ => "none"
+
+def collSpec (ops : List CollOp) : List String :=
+  (List.range ops.length).filterMap (fun n => (ops[n]?).map (collSpecOut (ops.take n)))
+
+/-! ### channel -/
+
+def payload (g i sz : Nat) : List Nat := (List.range sz).map (fun k => (g * 131 + i * 17 + k * 29 + 7) % 256)
+
+inductive ChanOp where
+  | send (g i : Nat)
+  | recv (g i : Nat)
+deriving Repr, BEq, DecidableEq
+
+def parseChanOp (s : String) : Option ChanOp :=
+  match s.toList with
+  | 's' :: rest =>
+    match ((String.ofList rest).splitOn ".").mapM String.toNat? with
+    | some [g, i] => some (.send g i)
+    | _ => none
+  | 'r' :: rest =>
+    match ((String.ofList rest).splitOn ".").mapM String.toNat? with
+    | some [g, i] => some (.recv g i)
+    | _ => none
+  | _ => none
+
+def parseChanOps (s : String) : Option (List ChanOp) := (s.splitOn ",").mapM parseChanOp
+
+/-- Records that reach the wire on gate `g`: those `gatewaySend` lets through. -/
+def sentOn (total : Total) (ops : List ChanOp) (g : Nat) : List Nat :=
+  ops.filterMap (fun op => match op with
+    | .send g' i => if g' = g ∧ gatewaySend total i ≠ .tooManyRecords then some i else none
+    | _ => none)
+
+/-- Channel-level model: a send is refused iff `gatewaySend` refuses it; `receive(i)` returns the
+payload written by `send(i)` on the same gate; past a closed channel it is `EndOfStream`; a receive
+that can never be served is `timeout`. -/
+def chanModel (sz : Nat) (total : Total) (ops : List ChanOp) : List String :=
+  ops.map (fun op => match op with
+    | .send _ i => if gatewaySend total i = .tooManyRecords then "err:TooManyRecords" else "ok"
+    | .recv g i =>
+      let sent := sentOn total ops g
+      -- served iff every record up to i is sent (the stream is ordered)
+      if (List.range (i + 1)).all (fun j => sent.contains j) then bytesHex (payload g i sz)
+      else match total with
+        | .specified n => if i ≥ n ∧ (List.range n).all (fun j => sent.contains j) then "eos" else "timeout"
+        | _ => "timeout")
+
+def chanOracle (sz : Nat) (total : Total) (ops : List ChanOp) (impl : String) : Option String := Id.run do
+  let items := impl.splitOn ";"
+  if items.length ≠ ops.length then return some "one outcome per operation expected"
+  for (op, it) in ops.zip items do
+    match op with
+    | .send _ i =>
+      let beyond : Bool := match total with
+        | .specified n => decide (i ≥ n)
+        | _ => false
+      if beyond && it != "err:TooManyRecords" then return some s!"send({i}) beyond the declared total must be an error, got {it}"
+      if !beyond && it != "ok" then return some s!"send({i}) within the total failed: {it}"
+    | .recv g i =>
+      let within : Bool := match total with
+        | .specified n => decide (i < n)
+        | _ => true
+      let wasSent := ops.any (fun o => o == .send g i) && within
+      if wasSent then
+        if it ≠ bytesHex (payload g i sz) then
+          return some s!"receive({i}) on gate {g} returned {it}, the matching send wrote {bytesHex (payload g i sz)}"
+      else if it != "eos" && it != "timeout" then
+        return some s!"receive({i}) on gate {g} returned {it} but no such record was sent on this channel"
+  return none
+
+def handle (toks : List String) : Option String :=
+  match toks with
+  | ["c13.config", a, rd, r, t] => some <| Id.run do
+      let some a := a.toNat? | return "bad-request"
+      let some rd := rd.toNat? | return "bad-request"
+      let some r := r.toNat? | return "bad-request"
+      let some t := parseTotal t | return "bad-request"
+      return config a rd r t
+  | ["c13.coll", ops] => some <| Id.run do
+      let some ops := parseCollOps ops | return "bad-request"
+      return showOuts ((collRun [] ops).map showCollOut)
+  | ["c13.chan", _a, _rd, sz, t, ops] => some <| Id.run do
+      let some sz := sz.toNat? | return "bad-request"
+      let some t := parseTotal t | return "bad-request"
+      let some ops := parseChanOps ops | return "bad-request"
+      return showOuts (chanModel sz t ops)
+  | _ => none
+
+def oracle (toks : List String) (impl : String) : Option String :=
+  match toks with
+  | ["c13.config", a, rd, r, t] => some <| Id.run do
+      let some a := a.toNat? | return "unknown"
+      let some rd := rd.toNat? | return "unknown"
+      let some r := r.toNat? | return "unknown"
+      let some t := parseTotal t | return "unknown"
+      match configOracle a rd r t impl with
+      | none => return "holds"
+      | some why => return s!"fails {why}"
+  | ["c13.coll", ops] => some <| Id.run do
+      let some ops := parseCollOps ops | return "unknown"
+      let want := showOuts (collSpec ops)
+      if impl = want then return "holds"
+      else return s!"fails stream rendezvous differs from the per-key specification: want {want}"
+  | ["c13.chan", _a, _rd, sz, t, ops] => some <| Id.run do
+      let some sz := sz.toNat? | return "unknown"
+      let some t := parseTotal t | return "unknown"
+      let some ops := parseChanOps ops | return "unknown"
+      match chanOracle sz t ops impl with
+      | none => return "holds"
+      | some why => return s!"fails {why}"
+  | _ => none
 
 end IpaVerif.Driver.C13
